@@ -321,7 +321,38 @@ fn run2<T: MV>(case: &Value, out: &mut Out) {
     }
 }
 
+// ------------------------------------------------------------------ nodal values AT the nodes, bit for bit
+/// kind "nx": grids whose spacings have inexact reciprocals (k/64 with odd k >= 47, k/1000, k/3, ...) and arbitrary f64 data (given as bit
+/// patterns).  The query point is the node coordinate as stored (read back from the mesh); `want` is the value that was stored (from the case),
+/// `got` what get_interpolated_vars returns: both logged as bit patterns, compared by the trace spec.
+/// LAST node: only the last cell contains it, the unchanged code evaluates left + fl((right-left)/dx)*dx there, which is not exact on such
+/// grids (measured, see c19.py note); there the deviation is logged in units of 8 eps max|data| as for interior points.
+fn run_nx(case: &Value, out: &mut Out) {
+    let cid = geti(case, "cid");
+    let fr = |v: &Value| v[0].as_i64().unwrap() as f64 / v[1].as_i64().unwrap() as f64;
+    let mut xs = vec![fr(&case["x0"])]; for st in case["steps"].as_array().unwrap() { let l = *xs.last().unwrap(); xs.push(l + fr(st)); }
+    let n = xs.len();
+    let data: Vec<Vec<f64>> = case["data"].as_array().unwrap().iter().map(|r| r.as_array().unwrap().iter().map(|h| f64::from_bits(u64::from_str_radix(h.as_str().unwrap(), 16).unwrap())).collect()).collect();
+    let nv = data[0].len();
+    let mut m = Mesh1D::<f64, f64>::new(Vector::create(xs), nv);
+    for k in 0..n { if k % 2 == 0 { m.set_nodes_vars(k, Vector::create(data[k].clone())); } else { m[k] = Vector::create(data[k].clone()); } }
+    let mut mx = 0.0f64; for r in &data { for v in r { mx = mx.max(v.abs()); } }
+    for k in 0..n {
+        let mut e = json!({"cid": cid, "k": k, "kind": "nx", "ty": "f64", "op": "interp_node", "node": k, "nn": n, "mode": case["mode"]});
+        let r = guarded(|| { let x = m.coord(k); (m.get_interpolated_vars(x), x) });
+        match r {
+            Ok((got, x)) => { e["panic"] = json!(false); e["xb"] = json!(bits(x));
+                e["got"] = Value::from(got.vec.iter().map(|y| bits(*y)).collect::<Vec<String>>());
+                e["want"] = Value::from(data[k].iter().map(|y| bits(*y)).collect::<Vec<String>>());
+                e["units"] = Value::from((0..nv).map(|v| if v < got.size() { units((got[v] - data[k][v]).abs(), 8.0 * f64::EPSILON * mx) } else { SAT }).collect::<Vec<i64>>()); }
+            Err(_) => { e["panic"] = json!(true); e["got"] = json!([]); e["want"] = json!([]); e["units"] = json!([]); }
+        }
+        out.ev(e);
+    }
+}
+
 pub fn exec(case: &Value, out: &mut Out) {
+    if gets(case, "kind") == "nx" { return run_nx(case, out); }
     match (gets(case, "kind"), gets(case, "ty")) {
         ("m1", "f64") => run1::<f64>(case, out), ("m1", "rat") => run1::<Rat>(case, out),
         ("m2", "f64") => run2::<f64>(case, out), ("m2", "rat") => run2::<Rat>(case, out),
@@ -698,6 +729,22 @@ fn gen_stat2(rng: &mut StdRng, nx: usize, ny: usize, nv: usize, famx: usize, fam
            "xn": xs, "yn": ys, "nv": nv, "ops": ops, "family": "stat", "fam": famx * 10 + famy})
 }
 
+/// case of kind "nx" (see run_nx).  mode: 0 data 1.0 everywhere, 1 small integers, 2 general floats, 3 huge next to small (2^53, 1), 4 mixed signs / magnitudes
+fn gen_nx(rng: &mut StdRng, n: usize, nv: usize, mode: usize, uniform: bool) -> Value {
+    let sp: [(i64, i64); 16] = [(49, 64), (103, 64), (47, 64), (57, 64), (1, 10), (3, 10), (7, 10), (1, 3), (2, 3), (5, 3), (3, 8), (51, 1000), (333, 1000), (1001, 1000), (49, 128), (99, 64)];
+    let first = sp[rng.gen_range(0..sp.len())];
+    let steps: Vec<(i64, i64)> = (0..n - 1).map(|_| if uniform { first } else { sp[rng.gen_range(0..sp.len())] }).collect();
+    let x0 = [(0i64, 1i64), (-1, 3), (1, 10), (-7, 10), (5, 1), (-64, 1)][rng.gen_range(0..6)];
+    let data: Vec<Vec<String>> = (0..n).map(|k| (0..nv).map(|v| { let y: f64 = match mode {
+        0 => 1.0,
+        1 => rng.gen_range(-32..=32i64) as f64,
+        2 => (rng.gen::<f64>() - 0.5) * 2000.0,
+        3 => if (k + v) % 2 == 0 { 9007199254740992.0 } else { 1.0 },
+        _ => { let e = rng.gen_range(-20..=40); let y = (1.0 + rng.gen::<f64>()) * p2(e); if rng.gen_bool(0.5) { y } else { -y } } };
+        bits(if y == 0.0 { 0.0 } else { y }) }).collect()).collect();
+    json!({"kind": "nx", "ty": "f64", "mode": mode, "x0": [x0.0, x0.1], "steps": steps.iter().map(|s| json!([s.0, s.1])).collect::<Vec<Value>>(), "data": data, "nv": nv})
+}
+
 pub fn gen(tier: &str, seed: u64, out: &mut Out) {
     let quick = tier == "quick";
     let mut rng = rng(seed, 19);
@@ -756,6 +803,11 @@ pub fn gen(tier: &str, seed: u64, out: &mut Out) {
             if *we <= 10 || pi < 2 { push(out, gen_wide_quad(&mut rng, pat, *we, Some(["NW", "NNN", "WN", "NWN"][(pi + q + rep) % 4]), (*we).min(6), 1 + (pi + q) % 2)); }
         }
     } }
+    // (e) nodal values AT the nodes, bit for bit, on grids whose spacings have inexact reciprocals
+    let reps = if quick { 2 } else { 12 };
+    for mode in 0..5usize { for rep in 0..reps { for n in [3usize, 4, 6, 9, 12] {
+        push(out, gen_nx(&mut rng, n, [1usize, 4, 2, 3][(mode + rep + n) % 4], mode, (rep + n) % 3 == 0));
+    } } }
     // (b) 2-D: every shape 2..12 x 2..12
     let reps = if quick { 1 } else { 6 };
     for nx in 2..=12usize { for ny in 2..=12usize { for rep in 0..reps {
